@@ -336,7 +336,28 @@ def check_buffered_density_matrix():
         [("X**e", 0), ("amplitude_damp", 0), ("CZ**e", (0, 1)), ("phase_flip", 1), ("X**e", 1)],
         [("generalized_amplitude_damp", 1), ("CZ**e", (1, 0)), ("bit_flip", 0)],
     ]
-    unit = {"X**e": (lambda: cirq.X ** e, lambda: [gs.x_pow(e)]), "CZ**e": (lambda: cirq.CZ ** e, lambda: [gs.cz_pow(e)])}
+    class _InPlaceZ(cirq.Gate):
+        """a channel that applies itself in place and returns the target tensor (which the apply_channel protocol allows): rho -> Z rho Z"""
+
+        def _num_qubits_(self):
+            return 1
+
+        def _apply_channel_(self, args):
+            for ax in (args.left_axes[0], args.right_axes[0]):
+                idx = [slice(None)] * args.target_tensor.ndim
+                idx[ax] = 1
+                args.target_tensor[tuple(idx)] = args.target_tensor[tuple(idx)] * -1
+            return args.target_tensor
+
+    seqs += [
+        [("in-place Z", 0), ("amplitude_damp", 0), ("bit_flip", 1)],
+        [("amplitude_damp", 1), ("in-place Z", 1), ("in-place Z", 0), ("reset", 1), ("depolarize", 0)],
+        [("phase_damp(0)", 0), ("amplitude_damp", 0), ("phase_damp(0)", 1), ("phase_flip", 1)],
+    ]
+    Zm = [[1, 0], [0, -1]]
+    Im = [[1, 0], [0, 1]]
+    unit = {"X**e": (lambda: cirq.X ** e, lambda: [gs.x_pow(e)]), "CZ**e": (lambda: cirq.CZ ** e, lambda: [gs.cz_pow(e)]),
+            "in-place Z": (lambda: _InPlaceZ(), lambda: [np.array(Zm, dtype=object)]), "phase_damp(0)": (lambda: cirq.phase_damp(0.0), lambda: [np.array(Im, dtype=object)])}
     obls = []
     for seq in seqs:
         roots = []
